@@ -326,7 +326,10 @@ def replay(prop, path):
             print(v["detail"])
         return 1 if hit else 0
     binary, _ = build(rp["build"])
-    cmd = [binary, prop, "--tier", rp["tier"], "--seed", str(rp["seed"]),
+    # same volume parameters as the stage that found it (enumerating and
+    # pool-style stages depend on them)
+    st = next((s for s in PROPERTIES[prop][rp["tier"]] if s["name"] == rp["stage"]), {})
+    cmd = [binary, prop, "--tier", rp["tier"], "--seed", str(rp["seed"]), "--scale", str(st.get("scale", 1.0)),
            "--stage", rp["rsmon_stage"], "--case", str(rp["case_seed"])]
     p = subprocess.run(cmd, cwd=ROOT, env=ENV, stdout=subprocess.PIPE, stderr=subprocess.PIPE, text=True)
     sys.stderr.write(p.stderr)
